@@ -15,6 +15,7 @@ for d in sorted(glob.glob(os.path.join(VERIF, "seeded", "benign", "B*"))):
         p = subprocess.run(["./check", meta["property"], "--tier", "quick"], cwd=VERIF, capture_output=True, text=True)
     finally:
         subprocess.run(["git", "-C", "/repo", "checkout", "--", "."], check=True)
+        subprocess.run(["git", "-C", "/repo", "clean", "-fdq", "--", "impl", "src", "tests"], check=True)
     alarms = [l for l in p.stdout.split("\n") if l.startswith("VIOLATION")]
     res[bid] = {"property": meta["property"], "rc": p.returncode, "violation_lines": len(alarms), "quiet": p.returncode == 0 and not alarms}
     print(bid, meta["property"], "rc=%d" % p.returncode, "quiet" if res[bid]["quiet"] else "FALSE ALARM / ERROR: " + (alarms[0] if alarms else p.stderr[-300:]))
